@@ -83,6 +83,25 @@ access(all) fun main(): Int {
     return getAuthAccount<auth(Storage) &Account>(0x1).storage.storagePaths.length
 }`
 
+const scTxStoreArray = `
+import Item from 0x1
+transaction {
+  prepare(acct: auth(Storage) &Account) {
+    let a: @[AnyResource] <- [<-Item.mk(1), <-Item.mk(2), <-Item.mk(3)]
+    acct.storage.save(<-a, to: /storage/arr)
+  }
+}`
+
+const scDestroyArrayBody = `
+transaction {
+  prepare(acct: auth(Storage) &Account) {
+    let a <- acct.storage.load<@[AnyResource]>(from: /storage/arr)!
+    destroy a
+  }
+}`
+
+const KeyArrayNotImported = "destroy-event-missing:array-element-type-not-imported:interpreter"
+
 const KeyNotImported = "destroy-event-missing:nested-type-not-imported:interpreter"
 
 func RunImportScenario(sum *lib.Summary) {
@@ -90,6 +109,10 @@ func RunImportScenario(sum *lib.Summary) {
 	variants := []struct{ name, imports string }{
 		{"not-imported", "import Holder from 0x1\n"},
 		{"control", "import Item from 0x1\nimport Holder from 0x1\n"},
+		// a stored array of resources (no enclosing resource), destroyed by a transaction that
+		// imports nothing / imports the elements' contract
+		{"array-not-imported", ""},
+		{"array-control", "import Item from 0x1\n"},
 	}
 	for _, v := range variants {
 		for _, vm := range []bool{false, true} {
@@ -99,6 +122,9 @@ func RunImportScenario(sum *lib.Summary) {
 			}
 			h := lib.NewHost()
 			txs := []string{scTxStore, v.imports + scDestroyBody}
+			if strings.HasPrefix(v.name, "array") {
+				txs = []string{scTxStoreArray, v.imports + scDestroyArrayBody}
+			}
 			replay := map[string]any{"engine": engine, "variant": v.name,
 				"contracts": map[string]string{"Item": scItem, "Holder": scHolder}, "transactions": txs,
 				"how_to_replay": "deploy Item and Holder at 0x1 on lib.Host, run the transactions in order signed by 0x1, UseVM=" + fmt.Sprint(vm)}
@@ -178,6 +204,9 @@ func RunImportScenario(sum *lib.Summary) {
 				// them depends on whether something else made the interpreter load the Item program before)
 				if v.name == "not-imported" && !vm && missingNested {
 					key = KeyNotImported
+				}
+				if v.name == "array-not-imported" && !vm && missingNested {
+					key = KeyArrayNotImported
 				}
 				fail(key, fmt.Sprintf("%d resources were created and all destroyed (storage is empty), but no ResourceDestroyed event was emitted for %v",
 					len(created), missing))
